@@ -171,6 +171,15 @@ func luaQuote(s string) string {
 	return string(buf)
 }
 
+// toUnsigned is C's (unsigned long) cast as lstrlib applies it for %o %u %x %X: values from
+// 2^63 up to 2^64 convert directly (int64() would overflow), negative ones wrap around.
+func toUnsigned(nm LNumber) uint64 {
+	if nm >= 1<<63 && nm < 1<<64 {
+		return uint64(nm)
+	}
+	return uint64(int64(nm))
+}
+
 // formatInteger writes an integer conversion as C's printf does. Go's fmt differs from C for
 // the unsigned conversions: it honours '+' and ' ' (C: signed conversions only), writes "0x" in
 // front of a zero, does not count the "0x" when the flag '0' fills the field, and drops the single
@@ -243,11 +252,11 @@ func (nm LNumber) Format(f fmt.State, c rune) {
 		formatBytes(f, []byte{byte(int64(nm))})
 	case 'o':
 		// unsigned conversions in C: a negative value prints as its two's complement
-		formatInteger(f, false, uint64(int64(nm)), 8, false, false)
+		formatInteger(f, false, toUnsigned(nm), 8, false, false)
 	case 'x', 'X':
-		formatInteger(f, false, uint64(int64(nm)), 16, c == 'X', false)
+		formatInteger(f, false, toUnsigned(nm), 16, c == 'X', false)
 	case 'u':
-		formatInteger(f, false, uint64(int64(nm)), 10, false, false)
+		formatInteger(f, false, toUnsigned(nm), 10, false, false)
 	case 'd', 'i':
 		// through formatInteger: Go's fmt prints nothing but padding for a zero with precision 0
 		// and so loses the sign that C's %+.0d and % .0d still write
